@@ -323,7 +323,9 @@ def file_users(world, c, fi_file):
     own = leaf_owner(prog, WINDOW, fi_file) if fi_file is not None else None
     uses = [(bp, callee, loc) for (bp, callee, loc, m, bi) in field_ref_sinks(prog, own[0], own[1])] if own is not None else []
     c.need(len(uses), 2, "uses of Window.file in the crate")
-    allowed = {"<std::fs::File as std::io::Read>::read", "std::io::Write::write_all"}
+    # (`std::io::Read::read` is the same call reached through a type parameter, `fn read_chunk(source: &mut impl Read, ..)`: which impl
+    #  runs is decided by fill-read-call on the resolved call, and the field is an unbuffered File by window-file-type)
+    allowed = {"<std::fs::File as std::io::Read>::read", "std::io::Read::read", "std::io::Write::write_all"}
     for (bp, callee, loc) in uses:
         c.ob(callee in allowed, "file-used-by %s in %s" % (callee, short(bp)),
              "the Window's file is passed to %s in %s: only the fill's read and the flush's write_all may touch it (no seek, no second handle, no buffering)" % (callee, short(bp)), loc,
